@@ -36,9 +36,18 @@ func VerifC01Constructed(v *vrt.T) {
 		v.Assert(err == nil, "lambda parses")
 		return ln
 	}
-	pn.Info, pn.InfoReset = lam(verifC01DocLambdas[1][0]), lam(verifC01DocLambdas[1][1])
-	pn.Warn, pn.WarnReset = lam(verifC01DocLambdas[2][0]), lam(verifC01DocLambdas[2][1])
-	pn.Crit, pn.CritReset = lam(verifC01DocLambdas[3][0]), lam(verifC01DocLambdas[3][1])
+	// the reset conditions may read another field than the level conditions
+	// (.warn(lambda: "value" > 70).warnReset(lambda: "queue" < 60))
+	otherField := v.Choose("reset conditions read another field", 2) == 1
+	rl := func(l int) *ast.LambdaNode {
+		if otherField {
+			return lam([]string{"", `"queue" < 50`, `"queue" < 60`, `"queue" < 70`}[l])
+		}
+		return lam(verifC01DocLambdas[l][1])
+	}
+	pn.Info, pn.InfoReset = lam(verifC01DocLambdas[1][0]), rl(1)
+	pn.Warn, pn.WarnReset = lam(verifC01DocLambdas[2][0]), rl(2)
+	pn.Crit, pn.CritReset = lam(verifC01DocLambdas[3][0]), rl(3)
 	if h := v.Choose("history", 5); h < 4 {
 		pn.History = int64(h)
 	}
@@ -79,9 +88,15 @@ func VerifC01Constructed(v *vrt.T) {
 			t += int64(v.IntRange("dt", 0, 40))
 		}
 		x := int64(v.IntRange("ivalue", 40, 90))
+		y := x
+		fields := models.Fields{"value": x}
+		if otherField {
+			y = int64(v.IntRange("queue", 40, 90))
+			fields["queue"] = y
+		}
 		cond := [4]bool{false, x > 60, x > 70, x > 80}
-		reset := [4]bool{false, x < 50, x < 60, x < 70}
-		p := edge.NewPointMessage("m", "db", "rp", dims, models.Fields{"value": x}, tags, time.Unix(0, t).UTC())
+		reset := [4]bool{false, y < 50, y < 60, y < 70}
+		p := edge.NewPointMessage("m", "db", "rp", dims, fields, tags, time.Unix(0, t).UTC())
 		before := len(svc.events)
 		msg, err := state.Point(p)
 		v.Assert(err == nil, "no error")
